@@ -12,10 +12,10 @@ if ! git -C "$W" apply --3way "$PATCH" 2>/tmp/apply.err; then echo "PATCH_DOES_N
 timeout 120 /venv/bin/python "$DEMO" "$W" >/dev/null 2>&1; echo "demo_with_patch_exit=$?"
 ( cd "$W" && /venv/bin/python -m pytest -q -p no:cacheprovider --no-cov 2>&1 | tail -1 )
 for ID in "$@"; do
-  out=$(cd /verif && TWVERIF_REPO="$W" ./check "$ID" quick 2>&1); rc=$?
+  out=$(cd /verif && TWVERIF_NO_EVIDENCE=1 TWVERIF_REPO="$W" ./check "$ID" quick 2>&1); rc=$?
   echo "$ID quick rc=$rc: $(echo "$out" | grep -E 'clause:' | sort | uniq -c | head -4 | tr '\n' ';')"
   if [ $rc -eq 0 ]; then
-    out=$(cd /verif && TWVERIF_REPO="$W" ./check "$ID" thorough 2>&1); rc=$?
+    out=$(cd /verif && TWVERIF_NO_EVIDENCE=1 TWVERIF_REPO="$W" ./check "$ID" thorough 2>&1); rc=$?
     echo "$ID thorough rc=$rc: $(echo "$out" | grep -E 'clause:' | sort | uniq -c | head -4 | tr '\n' ';')"
   fi
 done
